@@ -188,6 +188,16 @@ def cmd_selftest(args):
     return selftest.main(args.which, args.rest)
 
 
+def cmd_probe_fresh(args):
+    """Evaluate a C15 probe in this brand-new interpreter (stdin: JSON)."""
+    from sim import engine
+    engine.ensure_repo_on_path()
+    from sim.machines import proc
+    doc = json.load(sys.stdin)
+    print(proc.fresh_outcomes(doc["probe"], doc["mc_script"]))
+    return 0
+
+
 def cmd_setup(args):
     from sim import engine
     pytrs = engine.ensure_repo_on_path()
@@ -221,6 +231,8 @@ def main():
     s.add_argument("which")
     s.add_argument("rest", nargs="*")
     s.set_defaults(fn=cmd_selftest)
+    pf = sub.add_parser("probe-fresh")
+    pf.set_defaults(fn=cmd_probe_fresh)
     u = sub.add_parser("setup")
     u.set_defaults(fn=cmd_setup)
     args = ap.parse_args()
